@@ -781,7 +781,7 @@ fn run_brk(sc: &Sc, ax: &mut Axecutor, marks: &[u64], _seen: &Rc<RefCell<Vec<(u6
     let mut unknown_break = false;
     // offset -> value, valid while the break has stayed above offset+8 since the write
     let mut shadow: BTreeMap<u64, u64> = BTreeMap::new();
-    let mut host_blocks: Vec<(u64, u64)> = Vec::new();
+    let mut host_blocks: Vec<(u64, u64, bool)> = Vec::new();
     let mut overlap_reported = false;
     for (k, op) in sc.ops.iter().enumerate() {
         // after every operation: no two areas intersect (real extents, not the handler's bookkeeping),
@@ -797,7 +797,15 @@ fn run_brk(sc: &Sc, ax: &mut Axecutor, marks: &[u64], _seen: &Rc<RefCell<Vec<(u6
                     }
                 }
             }
-            for (s, l) in host_blocks.iter() {
+            for (s, l, protected) in host_blocks.iter() {
+                if !snap.iter().any(|a| a.0 == *s && a.1 == *l) {
+                    ctx.dev("C13", "C13|neighbour_resized".into(), format!("after operation {} ({:?}) the area the host created at {s:#x} (+{l:#x}) no longer has its extent", k - 1, sc.ops[k - 1]));
+                    overlap_reported = true;
+                    continue;
+                }
+                if !*protected {
+                    continue;
+                }
                 match catch(|| ax.mem_read_bytes(*s, *l)) {
                     Ok(Ok(b)) if b.iter().all(|x| *x == 0xb7) => {}
                     _ => {
@@ -817,15 +825,18 @@ fn run_brk(sc: &Sc, ax: &mut Axecutor, marks: &[u64], _seen: &Rc<RefCell<Vec<(u6
         if let Op::Block { gap, len } = op {
             let (hs, _) = ax.verif_brk();
             if let Some(h) = area_snapshot(ax).iter().find(|a| hs != 0 && a.0 == hs) {
-                // never at the very start of a still empty heap: two areas with one start address are C10's grey zone
-                let start = h.0 + h.1 + gap + (h.1 == 0 && *gap == 0) as u64;
-                // read-only: the guest cannot legitimately change it, whatever its stores beyond the break hit
-                // (not where another area already starts: mem_prot addresses areas by their start)
-                let made = !area_snapshot(ax).iter().any(|a| a.0 == start) && matches!(catch(|| ax.mem_init_area(start, vec![0xb7; *len as usize])), Ok(Ok(()))) && matches!(catch(|| ax.mem_prot(start, 1)), Ok(Ok(())));
-                ctx.event(&format!("host_block:{}", if made { "created" } else { "refused" }), "");
+                let start = h.0 + h.1 + gap;
+                // read-only, so that the guest cannot legitimately change it whatever its stores beyond the
+                // break hit - unless another area (the still empty heap itself, say) starts at the same
+                // address: mem_prot addresses areas by their start, so such a block stays writable and only
+                // its extent is watched
+                let shared = area_snapshot(ax).iter().any(|a| a.0 == start);
+                let made = matches!(catch(|| ax.mem_init_area(start, vec![0xb7; *len as usize])), Ok(Ok(())));
+                let protected = made && !shared && matches!(catch(|| ax.mem_prot(start, 1)), Ok(Ok(())));
+                ctx.event(&format!("host_block:{}", if !made { "refused" } else if shared { "created_at_shared_start" } else { "created" }), "");
                 if made {
                     ctx.fault("area_created_behind_live_heap");
-                    host_blocks.push((start, *len));
+                    host_blocks.push((start, *len, protected));
                 }
             }
         }
